@@ -305,8 +305,30 @@ def run(ctx):
         finally:
             os.chdir(here)
         shutil.rmtree(os.path.join(repo.path, "pkg"), ignore_errors=True)
-        # a failing command raises
-        for func, pos, kwargs in (("version", None, {"source": "none"}), ("check", "not a version", {"format": "semver"}), ("render", "1.2", {"input_format": "semver"}),
+        # the stdin keyword: empty and blank texts are values too (not "no stdin"), and the child must never fall back to the caller's own stdin -
+        # during these calls the process's fd 0 is a file holding a valid object of another version, so an inherited stdin shows up as 9.9.9
+        sentinel = os.path.join(top, "sentinel.ron")
+        with open(sentinel, "w") as f:
+            f.write("(schema: (core: [var(Major), var(Minor), var(Patch)], extra_core: [], build: []), vars: (major: Some(9), minor: Some(9), patch: Some(9), custom: {}))")
+        for sval in ("", " ", "\n", obj, "garbage (", obj + "\n\n"):
+            for fn, kw0 in (("version", {"source": "stdin"}), ("flow", {"source": "stdin"}), ("version", {"source": "stdin", "output_format": "pep440"}), ("version", {})):
+                kwargs = dict(kw0, stdin=sval)
+                fd = os.open(sentinel, os.O_RDONLY)
+                saved0 = os.dup(0)
+                os.dup2(fd, 0)
+                try:
+                    res = call(z, fn, None, kwargs)
+                finally:
+                    os.dup2(saved0, 0)
+                    os.close(saved0)
+                    os.close(fd)
+                iargv, istdin = assemble(fn, None, kwargs, {})
+                r = core.run_zerv(ctx.bins, iargv, stdin=istdin, env=env)
+                ctx.evaluations += 2
+                ctx.count("stdin_keyword_calls")
+                _compare(ctx, res, r, dict(kind="stdin-keyword", func=fn, kwargs={k: repr(x)[:60] for k, x in kwargs.items()}), iargv)
+        # a failing command raises - also one that does not exit but dies from a signal (the recorded template-parser stack overflow aborts with SIGABRT)
+        for func, pos, kwargs in (("render", "1.2.3", {"output_template": "{{ " + "(" * 30000 + "1" + ")" * 30000 + " }}"}), ("version", None, {"source": "none"}), ("check", "not a version", {"format": "semver"}), ("render", "1.2", {"input_format": "semver"}),
                                   ("flow", None, {"source": "none", "tag_version": "1.2.3", "hash_branch_len": 0}), ("version", None, {"source": "none", "tag_version": "x.y.z"})):
             res = call(z, func, pos, kwargs)
             ctx.evaluations += 1
